@@ -167,8 +167,10 @@ func vStoreDigest(dir string) string {
 // vPlanMissing: the reap died with the store directory changed and no REAP_PLAN on disk.
 var vPlanMissing bool
 
-// vSweepLastOp describes where the reap died (read by the native sweep test).
+// vSweepLastOp describes where the reap died, vSweepFirstPartial which partial state it left (-1:
+// it died between calls or inside a checkpoint) (read by the native sweep test).
 var vSweepLastOp string
+var vSweepFirstPartial int
 
 // vReap runs the real reap on a fresh Store value over dir.
 func vReap(dir string, sh vShape) error {
@@ -193,6 +195,7 @@ func vCrashScenario(sh vShape, repairs int, insideInRepair bool) (root, dir stri
 
 	n := vCountPoints(func() { vReap(dir, sh) })
 	at := 1 + verifChoice("crashAt", n+1) // n+1: the reap runs to its end
+	vSweepFirstPartial = -1
 	var rerr error
 	if !vRunCrash(at, func() { rerr = vReap(dir, sh) }) {
 		verifAssume(at == vCr.count+1)
@@ -203,6 +206,9 @@ func vCrashScenario(sh vShape, repairs int, insideInRepair bool) (root, dir stri
 		vSweepLastOp = "before " + vCr.op + " " + filepath.Base(vCr.path)
 		if vCr.inside {
 			vSweepLastOp = "inside " + vCr.op + " " + filepath.Base(vCr.path)
+		}
+		if len(vPartialPick) > 0 {
+			vSweepFirstPartial = vPartialPick[0]
 		}
 		crashes++
 		vMarkCrash(dir, sh)
@@ -217,7 +223,7 @@ func vCrashScenario(sh vShape, repairs int, insideInRepair bool) (root, dir stri
 	for i := 0; i < repairs; i++ {
 		n2 := vCountPoints(func() { vBareStore(dir).check() })
 		if i == 0 && verifSymbolic() {
-			println("PTS", sh.older, sh.olderIncs, sh.fullWALs, sh.incs, sh.walsPerInc, sh.noVerifyDB, at, n2)
+			println("PTS", sh.older, sh.olderIncs, sh.fullWALs, sh.incs, sh.walsPerInc, sh.noVerifyDB, at, vSweepFirstPartial, n2)
 		}
 		k := verifChoice(verifName("crashInRepair", i), n2+1) // 0: this repair is not interrupted
 		if k == 0 {
